@@ -104,7 +104,7 @@ func (c *vKAConn) WriteControl(mt int, _ []byte, _ time.Time) error {
 }
 func (c *vKAConn) Close() error { c.mu.Lock(); c.closed = true; c.mu.Unlock(); c.kick(); return nil }
 
-func vKARun(role string, silentAt, rtt time.Duration, watch time.Duration) (torn bool, at time.Duration, conn *vKAConn) {
+func vKARun(role string, silentAt, rtt time.Duration, watch time.Duration, writes ...time.Duration) (torn bool, at time.Duration, conn *vKAConn) {
 	conn = &vKAConn{silentAt: silentAt, rtt: rtt, wake: make(chan struct{}, 1)}
 	done := make(chan time.Duration, 1)
 	after := func() {
@@ -116,12 +116,24 @@ func vKARun(role string, silentAt, rtt time.Duration, watch time.Duration) (torn
 		default:
 		}
 	}
+	var write func(context.Context, []byte) error
 	if role == "client" {
 		c := newWebsocketClientConfig(context.Background(), logger.DefaultLogger, "addr", ConnectOptions{}, after, conn)
 		c.log = vSilent{logger.DefaultLogger}
 		c.Start()
+		write = c.Write
 	} else {
-		newWebsocketServer(conn, &ServerConfig{}, after)
+		write = newWebsocketServer(conn, &ServerConfig{}, after).Write
+	}
+	// application messages sent at the given moments of the session
+	t0 := time.Now()
+	for _, w := range writes {
+		go func(w time.Duration) {
+			time.Sleep(w - time.Since(t0))
+			ctx, cancel := context.WithTimeout(context.Background(), time.Second)
+			defer cancel()
+			_ = write(ctx, []byte("application message"))
+		}(w)
 	}
 	select {
 	case at = <-done:
@@ -195,6 +207,29 @@ func TestVerifC17Transport(t *testing.T) {
 			}
 			vEmit(c)
 		}(role)
+		// healthy session with application traffic: one message a quarter into the first ping period, then messages at
+		// moments spread over the following periods; what the session writes must not delay its pings past the peer's patience
+		for vi, offs := range [][]float64{{0.25}, {0.25, 1.5, 2.75, 3.2, 3.9}, {0.6, 0.9, 1.1, 1.95}} {
+			wg.Add(1)
+			go func(role string, vi int, offs []float64) {
+				defer wg.Done()
+				watch := time.Duration(5*P) + time.Duration(P/2)
+				var ws []time.Duration
+				for _, o := range offs {
+					ws = append(ws, time.Duration(o*float64(P)))
+				}
+				torn, at, conn := vKARun(role, -1, 2*time.Millisecond, watch, ws...)
+				conn.mu.Lock()
+				npongs := len(conn.pongs)
+				conn.mu.Unlock()
+				c := vCase{Class: "traffic/" + role, Sig: fmt.Sprintf("traffic/%s/%d", role, vi), Coq: fmt.Sprintf("CIdle %s %s 5 %s %s", vCoqZ(W), vCoqZ(P), vCoqZ(int64(watch)), vCoqBool(torn)),
+					Info: map[string]interface{}{"role": role, "pongs": npongs, "writes_at_periods": offs, "outcome": fmt.Sprintf("torn=%v at=%v", torn, at)}}
+				if torn {
+					c.Fail = "healthy-session-with-traffic-dropped"
+				}
+				vEmit(c)
+			}(role, vi, offs)
+		}
 	}
 	wg.Wait()
 }
